@@ -58,19 +58,20 @@ type HViolation struct {
 }
 
 type HOutcome struct {
-	Class      string       `json:"class"` // "" | result | invariant | compile
-	Violations []HViolation `json:"violations,omitempty"`
-	Strategy   string
-	Checked    int
-	Diverged   int      // mismatches explained by a pure engine/configuration divergence (see engineDivergence)
-	States     []uint64 `json:"-"` // abstract-state hashes observed before checked calls
-	Nontrivial bool
-	Clears     int
-	MaxGen     int
-	Pool       simrt.PoolStats
-	LogHash    uint64
-	Funcs      []string `json:"rare_funcs,omitempty"`    // library functions the first failing call entered (filled on failure)
-	HistFuncs  []string `json:"history_funcs,omitempty"` // cache-full handling functions entered anywhere in the history up to the failing step
+	Class           string       `json:"class"` // "" | result | invariant | compile
+	Violations      []HViolation `json:"violations,omitempty"`
+	Strategy        string
+	Checked         int
+	Diverged        int      // mismatches explained by a pure engine/configuration divergence (see engineDivergence)
+	States          []uint64 `json:"-"` // abstract-state hashes observed before checked calls
+	Nontrivial      bool
+	Clears          int
+	MaxGen          int
+	Pool            simrt.PoolStats
+	LogHash         uint64
+	Funcs           []string `json:"rare_funcs,omitempty"`             // library functions the first failing call entered (filled on failure)
+	HistFuncs       []string `json:"history_funcs,omitempty"`          // cache-full handling functions entered anywhere in the history up to the failing step
+	PrefilterMisses bool     `json:"prefilter_misses_match,omitempty"` // the engine's prefilter does not report the start of a reference match on the failing call's haystack
 }
 
 func (sc *HScenario) hays() ([][]byte, []string) {
@@ -250,6 +251,40 @@ func engineDivergence(sc *HScenario, lv *liveValue, op *Op, hb [][]byte, hs []st
 	// diverge on this input (a pure defect), and an enumeration on a used value may mix
 	// answers of both (part of it served by the DFA, part by its NFA fallback).
 	return len(refs) == 2 && refs[0] != refs[1]
+}
+
+// prefilterMissesMatch reports whether the prefix prefilter of a value built with
+// knobs k fails to report the start of some match the NFA-only reference finds in
+// haystack h - i.e. the literal set is not a necessary condition for a match
+// (unsound extraction), which makes every skip-ahead engine position-dependent.
+func prefilterMissesMatch(pattern string, k Knobs, h []byte) bool {
+	re, err := compile(pattern, k)
+	if err != nil {
+		return false
+	}
+	pf := re.VerifEngine().VerifPrefilter()
+	if pf == nil {
+		return false
+	}
+	ref, err := compile(pattern, Knobs{NoDFA: true, NoPrefilter: true, Longest: k.Longest})
+	if err != nil {
+		return false
+	}
+	cands := map[int]bool{}
+	for pos := 0; pos <= len(h); {
+		c := pf.Find(h, pos)
+		if c < 0 {
+			break
+		}
+		cands[c] = true
+		pos = c + 1
+	}
+	for _, m := range ref.FindAllIndex(h, -1) {
+		if !cands[m[0]] {
+			return true
+		}
+	}
+	return false
 }
 
 // abstractState summarises the recycled state that will serve the next call on re.
@@ -466,6 +501,10 @@ func runHistoryT(sc *HScenario, tr *traceReq) *HOutcome {
 			if st.Kind == "burst" {
 				for k := 1; k < st.K; k++ {
 					g2 := execOp(lv.re, st.Op, hb, hs)
+					if g2 != got && engineDivergence(sc, lv, st.Op, hb, hs, g2) {
+						out.Diverged++
+						break
+					}
 					if g2 != got {
 						fail(HViolation{Step: si, Kind: "repeat", What: fmt.Sprintf("repetition %d of %s returned a different result", k, st.Op.API), Got: trunc(g2, 300), Want: trunc(got, 300), Longest: lv.longest})
 						break
@@ -696,6 +735,7 @@ func historyBatch(prop string, base uint64, from, to int, tier string, logHashes
 			sum.Failures[out.Class]++
 			out.Funcs = rareFuncs(sc)
 			out.HistFuncs = historyFuncs(sc)
+			out.PrefilterMisses = failingCallPrefilterMisses(sc, out)
 			emit(FailLine{Kind: "failure", Engine: "history", Index: i, Seed: seed, Outcome: out, Scenario: sc})
 		}
 	}
@@ -793,6 +833,34 @@ func historyFuncs(sc *HScenario) []string {
 	return out
 }
 
+// failingCallPrefilterMisses evaluates prefilterMissesMatch for the haystack(s) of
+// the first failing step, with the knobs of the scenario and with defaults (copies
+// are compiled with defaults).
+func failingCallPrefilterMisses(sc *HScenario, out *HOutcome) bool {
+	if len(out.Violations) == 0 {
+		return false
+	}
+	st := sc.Steps[out.Violations[0].Step]
+	hb, _ := sc.hays()
+	var hi []int
+	if st.Op != nil {
+		hi = append(hi, st.Op.H)
+	}
+	for _, o := range st.Ops {
+		hi = append(hi, o.H)
+	}
+	for _, h := range hi {
+		for _, longest := range []bool{false, true} {
+			k := sc.Knobs
+			k.Longest = longest
+			if prefilterMissesMatch(sc.Pattern, k, hb[h]) || prefilterMissesMatch(sc.Pattern, Knobs{Longest: longest}, hb[h]) {
+				return true
+			}
+		}
+	}
+	return false
+}
+
 func sortStrings(s []string) {
 	for i := 1; i < len(s); i++ {
 		for j := i; j > 0 && s[j] < s[j-1]; j-- {
@@ -828,6 +896,7 @@ func replayHistory(path string, emit func(any)) int {
 	if out.Class != "" {
 		out.Funcs = rareFuncs(sc)
 		out.HistFuncs = historyFuncs(sc)
+		out.PrefilterMisses = failingCallPrefilterMisses(sc, out)
 	}
 	emit(FailLine{Kind: "replay", Engine: "history", Index: sc.Index, Seed: sc.Seed, Outcome: out, Scenario: sc})
 	if out.Class != "" {
@@ -970,6 +1039,7 @@ func minimizeHistory(path string, emit func(any)) int {
 	final := runHistory(cloneH(best))
 	final.Funcs = rareFuncs(best)
 	final.HistFuncs = historyFuncs(best)
+	final.PrefilterMisses = failingCallPrefilterMisses(best, final)
 	emit(FailLine{Kind: "minimized", Engine: "history", Index: sc.Index, Seed: sc.Seed, Outcome: final, Scenario: best})
 	if final.Class == "" {
 		return 2
